@@ -182,8 +182,17 @@ def _check_cases(rng, n):
         if rng.random() < 0.08 and kvs:
             kvs.insert(rng.randrange(len(kvs) + 1), [d.name_code[c20_domain.MARKER], d.true_code])
         try:
-            d.fo.check_options(d.dec_kvs(kvs), all_)
-            impl = None
+            kw = d.dec_kvs(kvs)
+            ret = d.fo.check_options(kw, all_)
+            impl = None if ret is kw else ['returned-a-different-mapping', -1]     # `return options`
+            if impl is None and kw:
+                ret2 = d.fo.check_options(kw, all_, True)                           # mark_checked=True: a marked COPY
+                if c20_domain.MARKER in kw:
+                    ok = ret2 is kw
+                else:
+                    ok = ret2 is not kw and ret2 == dict(kw, **{c20_domain.MARKER: True}) and c20_domain.MARKER not in kw
+                if not ok:
+                    impl = ['mark_checked-result-wrong', -1]
         except ValueError as e:
             kind, name = c20_domain.classify_error(str(e))
             impl = [kind, d.name_code.get(name, -1)]
